@@ -49,7 +49,7 @@ Proof using Hh Hm. equiv (energy_from_tof_exact h mn Hh Hm). Qed.
 Lemma equivariant_dspacing_from_tof t st L sL th sth t' st' L' sL' th' sth' dt dL dth :
   t > 0 -> st > 0 -> L > 0 -> sL > 0 -> sth > 0 -> 0 < th * sth <= PI ->
   t' > 0 -> st' > 0 -> L' > 0 -> sL' > 0 -> sth' > 0 ->
-  is_num dt = true -> is_num dL = true -> is_float dth = true ->
+  is_num dt = true -> is_num dL = true -> is_num dth = true ->
   t * st = t' * st' -> L * sL = L' * sL' -> th * sth = th' * sth' ->
   exists p,
     is_qty h mn (dspacing_from_tof O (tv t st d_s dt) (tv L sL d_m dL) (tv th sth d_rad dth)) p angstrom d_m (fdt dt) /\
@@ -77,7 +77,7 @@ Proof using Hh Hm. equiv (wavelength_from_energy_exact h mn Hh Hm). Qed.
 
 Lemma equivariant_dspacing_from_wavelength l sl th sth l' sl' th' sth' dl dth :
   l > 0 -> sl > 0 -> sth > 0 -> 0 < th * sth <= PI -> l' > 0 -> sl' > 0 -> sth' > 0 ->
-  is_float dl = true -> is_float dth = true -> l * sl = l' * sl' -> th * sth = th' * sth' ->
+  is_float dl = true -> is_num dth = true -> l * sl = l' * sl' -> th * sth = th' * sth' ->
   exists p,
     is_qty h mn (dspacing_from_wavelength O (tv l sl d_m dl) (tv th sth d_rad dth)) p angstrom d_m (fdt dl) /\
     is_qty h mn (dspacing_from_wavelength O (tv l' sl' d_m dl) (tv th' sth' d_rad dth)) p angstrom d_m (fdt dl).
@@ -90,7 +90,7 @@ Qed.
 
 Lemma equivariant_dspacing_from_energy E sE th sth E' sE' th' sth' dE dth :
   E > 0 -> sE > 0 -> sth > 0 -> 0 < th * sth <= PI -> E' > 0 -> sE' > 0 -> sth' > 0 ->
-  is_float dE = true -> is_float dth = true -> E * sE = E' * sE' -> th * sth = th' * sth' ->
+  is_float dE = true -> is_num dth = true -> E * sE = E' * sE' -> th * sth = th' * sth' ->
   exists p,
     is_qty h mn (dspacing_from_energy O (tv E sE d_J dE) (tv th sth d_rad dth)) p angstrom d_m (fdt dE) /\
     is_qty h mn (dspacing_from_energy O (tv E' sE' d_J dE) (tv th' sth' d_rad dth)) p angstrom d_m (fdt dE).
@@ -105,7 +105,7 @@ Qed.
    PHYSICALLY (value*multiplier), each in its own documented unit *)
 Lemma equivariant_Q_from_wavelength l sl th sth l' sl' th' sth' dl dth :
   l > 0 -> sl > 0 -> sth > 0 -> 0 < th * sth <= PI -> l' > 0 -> sl' > 0 -> sth' > 0 ->
-  is_float dl = true -> is_float dth = true -> l * sl = l' * sl' -> th * sth = th' * sth' ->
+  is_float dl = true -> is_num dth = true -> l * sl = l' * sl' -> th * sth = th' * sth' ->
   exists p,
     is_qty h mn (Q_from_wavelength O (tv l sl d_m dl) (tv th sth d_rad dth)) p (1 / sl) d_invm (fdt dl) /\
     is_qty h mn (Q_from_wavelength O (tv l' sl' d_m dl) (tv th' sth' d_rad dth)) p (1 / sl') d_invm (fdt dl).
@@ -118,7 +118,7 @@ Qed.
 
 Lemma equivariant_wavelength_from_Q q sq th sth q' sq' th' sth' dq dth :
   q > 0 -> sq > 0 -> sth > 0 -> 0 < th * sth <= PI -> q' > 0 -> sq' > 0 -> sth' > 0 ->
-  is_float dq = true -> is_float dth = true -> q * sq = q' * sq' -> th * sth = th' * sth' ->
+  is_float dq = true -> is_num dth = true -> q * sq = q' * sq' -> th * sth = th' * sth' ->
   exists p,
     is_qty h mn (wavelength_from_Q O (tv q sq d_invm dq) (tv th sth d_rad dth)) p angstrom d_m (fdt dq) /\
     is_qty h mn (wavelength_from_Q O (tv q' sq' d_invm dq) (tv th' sth' d_rad dth)) p angstrom d_m (fdt dq).
@@ -191,3 +191,47 @@ Lemma wrong_dimension_rejected_energy E sE :
                      else raises (wavelength_from_energy O (tv E sE dm DF64))) (d_J :: base_dims) = true.
 Proof using. sem_cbv. reflexivity. Qed.
 End Tie.
+
+(* ---- chopper-cascade helpers (tof/chopper_cascade.py, regenerated as Run.GenCascade) *)
+From Run Require GenCascade.
+Section Cascade.
+Variables h mn : R.
+Hypothesis Hh : h > 0.
+Hypothesis Hm : mn > 0.
+Notation O := (ROps h mn).
+Notation tv := (tvar h mn).
+Definition d_spm : dims := dsub d_s d_m.
+
+(* 1/v = lambda * m_n / h, in s/m whatever the wavelength unit *)
+Lemma inverse_velocity_exact l sl dl :
+  l > 0 -> sl > 0 -> is_num dl = true ->
+  is_qty' h mn (GenCascade.wavelength_to_inverse_velocity O (tv l sl d_m dl))
+          ((l * sl) * mn / h) 1 d_spm.
+Proof using Hh Hm.
+  intros; all_dtypes; eexists; sem_eval; (qty_intro; [ first [reflexivity | field; lra] | field; lra ]).
+Qed.
+
+(* arrival time after flying [distance]: t + distance * lambda * m_n / h, in the unit of [time] *)
+Lemma propagate_times_exact t st l sl x sx dt dl dx :
+  st > 0 -> l > 0 -> sl > 0 -> sx > 0 ->
+  is_float dt = true -> is_num dl = true -> is_num dx = true ->
+  is_qty' h mn (GenCascade.propagate_times O (tv t st d_s dt) (tv l sl d_m dl) (tv x sx d_m dx))
+          (t * st + (x * sx) * ((l * sl) * mn / h)) st d_s.
+Proof using Hh Hm.
+  intros; all_dtypes; eexists; sem_eval; (qty_intro; [ first [reflexivity | field; lra] | field; lra ]).
+Qed.
+
+Lemma equivariant_propagate_times t st l sl x sx t' st' l' sl' x' sx' dt dl dx :
+  st > 0 -> l > 0 -> sl > 0 -> sx > 0 -> st' > 0 -> l' > 0 -> sl' > 0 -> sx' > 0 ->
+  is_float dt = true -> is_num dl = true -> is_num dx = true ->
+  t * st = t' * st' -> l * sl = l' * sl' -> x * sx = x' * sx' ->
+  exists p,
+    is_qty' h mn (GenCascade.propagate_times O (tv t st d_s dt) (tv l sl d_m dl) (tv x sx d_m dx)) p st d_s /\
+    is_qty' h mn (GenCascade.propagate_times O (tv t' st' d_s dt) (tv l' sl' d_m dl) (tv x' sx' d_m dx)) p st' d_s.
+Proof using Hh Hm.
+  intros. eexists; split.
+  - eapply propagate_times_exact; eassumption.
+  - repeat match goal with E : ?a * ?b = ?c * ?d |- _ => rewrite E in *; clear E end.
+    eapply propagate_times_exact; eassumption.
+Qed.
+End Cascade.
